@@ -1,7 +1,16 @@
 import Isotp.PyAgree.EvalLemmas
+/-!
+  `Address.validate` (interpreted source, `Src.Address_validate`) = the model's `validateAddr`, for ALL constructor arguments,
+  wrong-typed ones included (every `PyVal`).
+
+  The body is cut into its eight top-level statements (`stmtAt Src.Address_validate i`; the five value checks are instances of the
+  two shapes `byteCheck` / `idCheck`, which `body_eq` checks against the dumped source by `rfl`).  One lemma per statement:
+  "raises `ValueError` under this exact condition, otherwise falls through with the environment unchanged"; `validate_exec` chains them.
+-/
 namespace Isotp.PyAgree
 open Isotp Isotp.Py
 
+/-- what the constructor has stored in the object when it calls `self.validate()` -/
 def argsEnv (a : AddrArgs) (modeVal : PV) (is29 : Bool) : Env := fun k =>
   match k with
   | "self._addressing_mode" => some modeVal
@@ -42,7 +51,10 @@ theorem sc_py_beq_pnone (v : PyVal) : ((PV.sc (.py v)) == pnone) = v.isNone := b
 theorem sc_py_bne_pnone (v : PyVal) : ((PV.sc (.py v)) != pnone) = !v.isNone := by
   cases v <;> simp [PyVal.isNone]
 
-theorem pvEq_sc_py (x y : PyVal) : pvEq (.sc (.py x)) (.sc (.py y)) = x.pyEq y := rfl
+/-- `self._rxid == self._txid` on two constructor arguments (deliberately not a `rfl`-lemma: `dsimp` would leave stale
+    `Decidable` instances behind) -/
+theorem pvEq_sc_py (x y : PyVal) : pvEq (.sc (.py x)) (.sc (.py y)) = x.pyEq y := by
+  simp only [pvEq, Sc.eq]
 
 theorem isinstance_int_py (v : PyVal) :
     evalBuiltin "isinstance_int" [.sc (.py v)] = some (.ok (pbool v.isInt)) := rfl
@@ -70,8 +82,6 @@ def byteCheck (nm : String) : PStmt :=
     (.cons (.ite (.not_ (.call "isinstance_int" (.cons (.var nm) .nil))) raiseVE .nil)
     (.cons (.ite (.or_ (.cmp .lt (.var nm) (.int 0)) (.cmp .gt (.var nm) (.int 255))) raiseVE .nil)
     .nil)) .nil
-
-theorem stmt4 : stmtAt Src.Address_validate 3 = byteCheck "self._target_address" := rfl
 
 theorem byteCheck_exec (env : Env) (nm : String) (v : PyVal) (h : env nm = some (.sc (.py v))) :
     execStmt noMeths env (byteCheck nm) = if byteOk v then .ok (.next env) else .error (.exc .ValueError) := by
@@ -115,13 +125,134 @@ theorem idCheck_exec (env : Env) (nm : String) (v : PyVal) (is29 : Bool) (h : en
             evalCmp_lt_int, h1, h1']
   · simp [idCheck, execStmt, execBlock, eval, h, sc_py_bne_pnone, hn, idOk]
 
+theorem ite_bind_except {ε α β : Type} (c : Prop) [Decidable c] (x y : Except ε α) (f : α → Except ε β) :
+    ((if c then x else y) >>= f) = if c then x >>= f else y >>= f := by split <;> rfl
+
+theorem eq_none_iff (v : PyVal) : v = PyVal.none ↔ v.isNone = true := by cases v <;> simp [PyVal.isNone]
+
 theorem stmt3_exec (a : AddrArgs) (m : Mode) (b : Bool) :
     execStmt noMeths (argsEnv a (modePV m) b) (stmtAt Src.Address_validate 2) =
       if presenceOk a m then .ok (.next (argsEnv a (modePV m) b)) else .error (.exc .ValueError) := by
-  cases m
-  · simp [stmtAt, Src.Address_validate, execStmt, execBlock, eval, evalArgs, presenceOk]
-    trace_state
-    sorry
-  all_goals sorry
+  cases m <;>
+    simp [stmtAt, Src.Address_validate, execStmt, execBlock, eval, evalArgs, presenceOk, modePV, modeName, ite_bind_except,
+      sc_py_beq_pnone, pvEq_sc_py, eq_none_iff] <;> grind
+
+
+theorem stmt1_exec (a : AddrArgs) (mv : PV) (b : Bool) :
+    execStmt noMeths (argsEnv a mv b) (stmtAt Src.Address_validate 0) =
+      if !(a.rxOnly && a.txOnly) then .ok (.next (argsEnv a mv b)) else .error (.exc .ValueError) := by
+  cases h1 : a.rxOnly <;> cases h2 : a.txOnly <;> simp [stmtAt, Src.Address_validate, execStmt, execBlock, eval, h1, h2]
+
+/-- the membership test passes for the seven members ... -/
+theorem stmt2_exec_member (a : AddrArgs) (m : Mode) (b : Bool) :
+    execStmt noMeths (argsEnv a (modePV m) b) (stmtAt Src.Address_validate 1) = .ok (.next (argsEnv a (modePV m) b)) := by
+  cases m <;> simp [stmtAt, Src.Address_validate, execStmt, execBlock, eval, evalArgs, modePV, modeName]
+
+/-- ... and raises for any other value -/
+theorem stmt2_exec_nonmember (a : AddrArgs) (mv : PV) (b : Bool) (h : ∀ m, mv ≠ modePV m) :
+    execStmt noMeths (argsEnv a mv b) (stmtAt Src.Address_validate 1) = .error (.exc .ValueError) := by
+  have hp : ∀ m, pvEq mv (modePV m) = false := by
+    intro m
+    cases mv with
+    | sc s =>
+      cases s with
+      | py v => rfl
+      | enum c n => have := h m; simp [modePV] at this ⊢; grind
+    | _ => rfl
+  have h1 := hp .n11; have h2 := hp .n29; have h3 := hp .nf29; have h4 := hp .e11
+  have h5 := hp .e29; have h6 := hp .m11; have h7 := hp .m29
+  simp only [modePV, modeName] at h1 h2 h3 h4 h5 h6 h7
+  simp [stmtAt, Src.Address_validate, execStmt, execBlock, eval, evalArgs, modePV, modeName, h1, h2, h3, h4, h5, h6, h7]
+
+theorem body_eq : Src.Address_validate =
+    .cons (stmtAt Src.Address_validate 0) (.cons (stmtAt Src.Address_validate 1) (.cons (stmtAt Src.Address_validate 2)
+    (.cons (byteCheck "self._target_address") (.cons (byteCheck "self._source_address") (.cons (byteCheck "self._address_extension")
+    (.cons (idCheck "self._txid") (.cons (idCheck "self._rxid") .nil))))))) := rfl
+
+theorem execBlock_cons_check (M : Meths) (env : Env) (s : PStmt) (rest : PBlock) (c : Bool) (e : PErr)
+    (h : execStmt M env s = if c then .ok (.next env) else .error e) :
+    execBlock M env (.cons s rest) = if c then execBlock M env rest else .error e := by
+  cases c <;> simp [execBlock, h]
+
+theorem execBlock_cons_next (M : Meths) (env : Env) (s : PStmt) (rest : PBlock)
+    (h : execStmt M env s = .ok (.next env)) :
+    execBlock M env (.cons s rest) = execBlock M env rest := by
+  simp [execBlock, h]
+
+
+/-- the whole body, for a member mode: falls through with the object unchanged iff the model accepts, `ValueError` otherwise -/
+theorem validate_exec (a : AddrArgs) (m : Mode) (hm : a.mode = some m) :
+    execBlock noMeths (argsEnv a (modePV m) m.is29) Src.Address_validate =
+      if validateAddr a then .ok (.next (argsEnv a (modePV m) m.is29)) else .error (.exc .ValueError) := by
+  rw [body_eq,
+    execBlock_cons_check _ _ _ _ _ _ (stmt1_exec a _ _),
+    execBlock_cons_next _ _ _ _ (stmt2_exec_member a m _),
+    execBlock_cons_check _ _ _ _ _ _ (stmt3_exec a m _),
+    execBlock_cons_check _ _ _ _ _ _ (byteCheck_exec _ _ _ (argsEnv_ta a _ _)),
+    execBlock_cons_check _ _ _ _ _ _ (byteCheck_exec _ _ _ (argsEnv_sa a _ _)),
+    execBlock_cons_check _ _ _ _ _ _ (byteCheck_exec _ _ _ (argsEnv_ae a _ _)),
+    execBlock_cons_check _ _ _ _ _ _ (idCheck_exec _ _ _ _ (argsEnv_txid a _ _) (argsEnv_is29 a _ _)),
+    execBlock_cons_check _ _ _ _ _ _ (idCheck_exec _ _ _ _ (argsEnv_rxid a _ _) (argsEnv_is29 a _ _)),
+    execBlock]
+  simp only [validateAddr, hm]
+  cases a.rxOnly && a.txOnly <;> cases presenceOk a m <;> cases byteOk a.ta <;> cases byteOk a.sa <;> cases byteOk a.ae <;>
+    cases idOk m.is29 a.txid <;> cases idOk m.is29 a.rxid <;> rfl
+
+/-- **`Address.validate` = `validateAddr`** (arguments of any type, mode an `AddressingMode` member). -/
+theorem validate_agrees (a : AddrArgs) (m : Mode) (hm : a.mode = some m) :
+    retOf (argsEnv a (modePV m) m.is29) Src.Address_validate =
+      if validateAddr a then .ok pnone else .error (.exc .ValueError) := by
+  simp only [retOf, runFn, validate_exec a m hm]
+  cases validateAddr a <;> rfl
+
+theorem validate_agrees_ok (a : AddrArgs) (m : Mode) (hm : a.mode = some m) (hv : validateAddr a = true) :
+    retOf (argsEnv a (modePV m) m.is29) Src.Address_validate = .ok pnone := by
+  rw [validate_agrees a m hm, hv]; rfl
+
+theorem validate_agrees_err (a : AddrArgs) (m : Mode) (hm : a.mode = some m) (hv : validateAddr a = false) :
+    retOf (argsEnv a (modePV m) m.is29) Src.Address_validate = .error (.exc .ValueError) := by
+  rw [validate_agrees a m hm, hv]; rfl
+
+/-- `validate` does not modify the object -/
+theorem validate_env_unchanged (a : AddrArgs) (m : Mode) (hm : a.mode = some m) (hv : validateAddr a = true) :
+    runFn noMeths (argsEnv a (modePV m) m.is29) Src.Address_validate = .ok (pnone, argsEnv a (modePV m) m.is29) := by
+  simp only [runFn, validate_exec a m hm, hv]; rfl
+
+/-- a mode value that is not one of the seven members: `ValueError`, whatever the other arguments
+    (`a.mode = none` in the model, where `validateAddr a = false`). -/
+theorem validate_nonmember (a : AddrArgs) (mv : PV) (b : Bool) (h : ∀ m, mv ≠ modePV m) :
+    retOf (argsEnv a mv b) Src.Address_validate = .error (.exc .ValueError) := by
+  have e : execBlock noMeths (argsEnv a mv b) Src.Address_validate = .error (.exc .ValueError) := by
+    rw [body_eq, execBlock_cons_check _ _ _ _ _ _ (stmt1_exec a _ _)]
+    cases (!(a.rxOnly && a.txOnly))
+    · rfl
+    · simp only [if_true, execBlock, stmt2_exec_nonmember a mv b h, error_bind]
+  simp only [retOf, runFn, e]; rfl
+
+theorem validate_nonmember_py (a : AddrArgs) (v : PyVal) (b : Bool) :
+    retOf (argsEnv a (.sc (.py v)) b) Src.Address_validate = .error (.exc .ValueError) :=
+  validate_nonmember a _ b (fun m => by simp [modePV])
+
+theorem validate_nonmember_enum (a : AddrArgs) (c n : String) (b : Bool) (hc : c ≠ "AddressingMode") :
+    retOf (argsEnv a (.sc (.enum c n)) b) Src.Address_validate = .error (.exc .ValueError) :=
+  validate_nonmember a _ b (fun m => by simp [modePV, hc])
+
+theorem validate_nonmember_model (a : AddrArgs) (h : a.mode = none) : validateAddr a = false := by
+  simp [validateAddr, h]
+
+/-! non-vacuity -/
+example : ∃ a m, a.mode = some m ∧ validateAddr a = true :=
+  ⟨{ mode := some .n11, txid := .int 1, rxid := .int 2 }, .n11, rfl, by decide⟩
+example : ∃ a m, a.mode = some m ∧ validateAddr a = false :=
+  ⟨{ mode := some .n11, txid := .float 1 1, rxid := .int 2 }, .n11, rfl, by decide⟩
+example : ∀ m, (PV.sc (.py (.int 3))) ≠ modePV m := fun m => by simp [modePV]
 
 end Isotp.PyAgree
+
+#print axioms Isotp.PyAgree.validate_agrees
+#print axioms Isotp.PyAgree.validate_agrees_ok
+#print axioms Isotp.PyAgree.validate_agrees_err
+#print axioms Isotp.PyAgree.validate_env_unchanged
+#print axioms Isotp.PyAgree.validate_nonmember
+#print axioms Isotp.PyAgree.validate_nonmember_py
+#print axioms Isotp.PyAgree.validate_nonmember_enum
